@@ -273,7 +273,14 @@ def disconnect_rules(ctx, R4, repo, res):
         if nd.kind == "stmt" and isinstance(nd.ast, ast.Assign) and unparse(nd.ast.targets[0]) in guard_attrs:
             closers.append(nd.id)
     susp = [nd.id for nd in g.nodes if nd.kind in ("stmt", "test") and nd.ast is not None and res.node_suspends(nd.ast, fn)]
-    start = [d for d, lab in g.succs(t.id, exc=False) if lab == "true"]
+    # the branch on which the caller goes on disconnecting: the one where the state is (still) above the down states
+    def _passes(lab):
+        fs = facts(t.ast, lab == "true")
+        return any((tv and re.fullmatch(r"self\._connection_state > .*DISCONNECTED_BROKEN_CONN", a)) or
+                   (not tv and re.fullmatch(r"self\._connection_state <= .*DISCONNECTED_BROKEN_CONN", a)) for a, tv in fs)
+    start = [d for d, lab in g.succs(t.id, exc=False) if lab in ("true", "false") and _passes(lab)]
+    if not start:
+        raise AnalysisError("disconnect: neither branch of the 'still connected' guard is the connected one")
     w = None
     for sp in susp:
         for st in start:
